@@ -465,6 +465,11 @@ func init() {
 					pre = append(pre, fmt.Sprintf("%s = %d", id, v))
 				}
 			}
+			if r.chance(1, 3) {
+				// an earlier evaluation on the same VM that DID roll: nothing of it may show in this evaluation's text
+				// (in particular when this expression records no roll at all)
+				pre = append(pre, pick(r, []string{"2d6 + 3", "100 - 3d6 * (2 + 2d4)", "(2d3+2d4)d5 + 1", "力量x = 4d6k3; 力量x + d20", "1d6+1d6+1d6+1d6+1d6+1d6+1d6+1d6", "f + b2 + 3a8"}))
+			}
 			dsides := ""
 			if r.chance(1, 3) {
 				dsides = pick(r, []string{"20", "6", "10+2", "面数 ?? 50"})
